@@ -1053,9 +1053,12 @@ def gen_cases(rng, tier):
                            'denom': [], 'vals': [3, 5, 7, 11][:n], 'mask': False, 'unit': None}}
                 c[side]['hist'] = ['derived', 0]
                 cases.append(c)
+                c2 = {'op': op, 'a': dict(c['a']), 'b': dict(c['b'])}
+                c2[side]['hist'] = ['inplace_num', 0]
+                cases.append(c2)
     # a fraction of the polymath operands is REACHED THROUGH A HISTORY (harness/hist.py); the reference is still
     # computed from the description (seeded change C04-D: x + number keeping the cached wod of x)
-    HM = ['derived', 'derived', 'derived', 'derived', 'sibling', 'sibling', 'setitem', 'iadd', 'isub', 'imul', 'itruediv', 'iand', 'ior']
+    HM = ['derived', 'derived', 'derived', 'inplace_num', 'inplace_num', 'sibling', 'sibling', 'setitem', 'iadd', 'isub', 'imul', 'itruediv', 'iand', 'ior']
     for c in cases:
         for k in ('a', 'b'):
             if k in c and c[k].get('form') == 'qube' and 'hist' not in c[k] and rng.random() < 0.3:
@@ -1065,7 +1068,7 @@ def gen_cases(rng, tier):
                 others = [c[j] for j in ('a', 'b') if j in c and j != k]
                 plain = c[k].get('cls') == 'Scalar' and c['op'] != 'pow' and \
                     all(o.get('cls', 'Scalar') == 'Scalar' for o in others)
-                if mode == 'derived' and not plain:
+                if mode in ('derived', 'inplace_num') and not plain:
                     mode = 'setitem'
                 c[k] = dict(c[k], hist=[mode, rng.randrange(24)])
     return cases
